@@ -330,6 +330,10 @@ impl CountUnique {
         if let Some(col) = columns.get(&self.field) {
             if let Some(s) = col.get_str_at(row_idx) {
                 self.uniq.insert(s.to_string());
+            } else if let Some(i) = col.get_i64_at(row_idx) {
+                // Typed i64 column (all-int batch) has no string view: use the decimal
+                // form, as update_from_event and the string-column path do.
+                self.uniq.insert(i.to_string());
             } else {
                 // Missing value in column: treat as empty string (consistent with update_from_event)
                 self.uniq.insert(String::new());
